@@ -3,6 +3,7 @@ package props
 import (
 	"encoding/json"
 	"fmt"
+	"sort"
 	"strings"
 	"testing"
 	"time"
@@ -23,12 +24,21 @@ func checkTerminates(c RunCase) (sig, what string, steps int64) {
 	if err != nil {
 		return "compile-error", firstLine(err.Error()), 0
 	}
-	res := RunSafe(v, c.Text, c10Budget)
+	budget := int64(c10Budget)
+	if c.Limit > 0 {
+		budget = c.Limit
+	}
+	res := runTextOrFile(v, c.Text, c.File, budget)
 	if spin := spinning(res, c.Text); spin != "" {
 		return "spin", spin, res.Steps
 	}
+	if res.OverBudget && res.Aborted && c.File {
+		// ended by the watchdog (wall time on a busy machine) below the step budget and
+		// within the progress measures: no verdict
+		return "", "", -1
+	}
 	if res.OverBudget {
-		return "step-budget-exceeded", fmt.Sprintf("Run executed more than %d VM instructions on a %d-byte text", c10Budget, len(c.Text)), res.Steps
+		return "step-budget-exceeded", fmt.Sprintf("Run executed more than %d VM instructions on a %d-byte text", budget, len(c.Text)), res.Steps
 	}
 	if res.Panic != nil {
 		return res.Panic.Sig(), "Run panicked: " + res.Panic.Sig(), res.Steps
@@ -522,4 +532,53 @@ func TestC10Process(t *testing.T) {
 			st.NonTrivial(src, func() any { return map[string]any{"src": src} })
 		}
 	})
+}
+
+// TestC10Files: the same claim when the input is a file (RunFiles): linear programs
+// whose instructions read several bytes at once, on files larger than the read
+// buffer, with the buffer ends falling on every phase of the repeated text. A read
+// loop that stops making progress is not a VM spin (no instruction is executed): the
+// watchdog sees the case in flight and the driver replays it alone.
+func TestC10Files(t *testing.T) {
+	seedNote(t)
+	StartWatchdog("C10", 60*time.Second)
+	st := NewStats("C10", "files", "exhaustive over 12 linear-time programs with multi-byte reads (literals, alternations, line / word anchors, multi-byte not-in, back-references, a bounded nullable loop, replace) x 8 files of 4097..12288 bytes read through RunFiles (mode NOTHING); oracle: the run returns within 5 000 000 VM instructions and the progress measures, and a call that never returns is a violation (watchdog + isolated replay); every case non-trivial; distinct by (program, file)")
+	st.Exhaustive = true
+	defer st.Write()
+	progs := []string{
+		`find all "ab"`, `find all 'abc' or 'bca' or 'cab'`, `find all line end`, `find all word end any`, `find all not in "ab", "b"`,
+		`find all at most 3 (maybe "ab") "c"`, `find all whole line`, `find all line start at least 1 "ab"`, `find all ('a' = v) 'b' v`,
+		`replace all "ab" with 'x'`, `find all (between 2 and 4 letter) = w ' ' w`, `find top 3 "bc" file end`,
+	}
+	texts := map[string]string{
+		"abc_4097": strings.Repeat("abc", 1400)[:4097], "abc_9000": strings.Repeat("abc", 3000), "ab_nl_8193": strings.Repeat("ab ab\n", 1400)[:8193],
+		"aba_6145": strings.Repeat("aba ", 1600)[:6145], "words_12288": strings.Repeat("the the cat ", 1024), "ab_4098": strings.Repeat("ab", 2049),
+		"crlf_5000": strings.Repeat("ab\r\n", 1250), "bc_end_4100": strings.Repeat("a", 4098) + "bc",
+	}
+	var names []string
+	for n := range texts {
+		names = append(names, n)
+	}
+	sort.Strings(names)
+	for _, src := range progs {
+		for _, n := range names {
+			c := RunCase{Src: src, Text: texts[n], File: true, Limit: 5_000_000}
+			st.Eval()
+			SetInflight(func() string { return jsonStr(Failure{Property: "C10", Kind: "terminates", Case: c}) })
+			sig, what, steps := checkTerminates(c)
+			ClearInflight()
+			if sig == "compile-error" {
+				t.Fatalf("HARNESS: %s: %s", src, what)
+			}
+			if sig != "" {
+				Fail(t, Failure{Property: "C10", Kind: "terminates", What: fmt.Sprintf("%s on the file %s: %s", src, n, what), Case: c, Sig: sig})
+			}
+			if steps < 0 {
+				st.Count("discarded_watchdog_abort")
+				continue
+			}
+			st.Max("max_steps", steps)
+			st.NonTrivial(src+"\x00"+n, func() any { return map[string]any{"src": src, "file": n, "bytes": len(texts[n]), "steps": steps} })
+		}
+	}
 }
